@@ -804,6 +804,66 @@ func runC10(c *Ctx) {
 		c.verdict(n >= 1, "neutrino.batchSpendReporter | initial outputs are recorded in a loop over the new requests", "", fmt.Sprintf("%d recording loop(s)", n), "no loop records the initial outputs of new requests any more")
 	})
 
+	c.rule("C10.G2", "the batch manager sleeps only on an empty queue: every Wait on the scanner's condition variable in batchManager lies behind pq.IsEmpty() = true, and on nothing else; only Enqueue and Stop signal that variable - neither a new block nor a recovered backend does - so a manager that also parks on 'the head is the request I just tried' leaves a request with a start height above the tip, or one whose first snapshot failed, unanswered until some unrelated request comes in", func() {
+		fn := c.fn("(*neutrino.UtxoScanner).batchManager")
+		wait := c.method("sync", "Cond", "Wait")
+		isEmpty := c.method("neutrino", "GetUtxoRequestPQ", "IsEmpty")
+		waits := find(fn, callTo(wait))
+		calls := find(fn, callTo(isEmpty))
+		c.guarded(fn, boolIs("s.pq.IsEmpty()", calls, 0, true), 1, "s.cv.Wait()", waits, 1, gDominate)
+	})
+
+	c.rule("C10.V6", "every request watching a transaction is looked at: in findInitialTransactions the loop over the requests the reverse index holds for one txid has no way out but the end of its range; left at the first request with an output index the transaction does not have, the requests behind it - for outputs the transaction does have - are never given their initial output and their callers are told the output does not exist", func() {
+		fn := c.fn("(*neutrino.batchSpendReporter).findInitialTransactions")
+		n := 0
+		seen := map[*ssa.BasicBlock]bool{}
+		ir.Instrs(fn, func(in ssa.Instruction) {
+			ia, ok := in.(*ssa.IndexAddr)
+			if !ok {
+				return
+			}
+			// a slice that came out of a map lookup keyed by a hash
+			fromIndex := ir.DerivesFrom(ia.X, func(x ssa.Value) bool {
+				lk, isL := x.(*ssa.Lookup)
+				if !isL {
+					return false
+				}
+				mt, isM := lk.X.Type().Underlying().(*types.Map)
+				if !isM {
+					return false
+				}
+				_, isSl := mt.Elem().Underlying().(*types.Slice)
+				return isSl
+			})
+			h := ir.LoopHeaderOf(in.Block())
+			if !fromIndex || h == nil || seen[h] {
+				return
+			}
+			seen[h] = true
+			lf := loopFormOf(h)
+			construct := c.nm(fn) + " | the loop over one transaction's requests ends only with its range"
+			if lf.problem != "" {
+				c.fail(construct, c.at(in), lf.problem)
+				return
+			}
+			if off, isCtr := counterOffset(lf, ia.Index); !isCtr || off != 0 {
+				return
+			}
+			n++
+			var early []string
+			for _, e := range ir.LoopExits(h) {
+				if e != lf.exit {
+					early = append(early, c.at(e.From.Instrs[len(e.From.Instrs)-1]))
+				}
+			}
+			sort.Strings(early)
+			c.verdict(len(early) == 0, construct, c.at(lf.test), "the counting test is the only exit", "the loop can be left early at "+join(uniq(early))+": the requests behind that one are never looked at", c.at(lf.test))
+		})
+		if n < 1 {
+			c.undecided(c.nm(fn)+" | loop over the requests of one txid", "", "no such loop found")
+		}
+	})
+
 	c.rule("C10.L1", "UtxoScanner.pq and nextBatch are accessed only under s.mu (= s.cv.L); GetUtxoRequest.result only under r.mu", func() {
 		mu := c.field("neutrino", "UtxoScanner", "mu")
 		exempt := map[string]string{"neutrino.NewUtxoScanner": "constructor"}
